@@ -1,5 +1,19 @@
-// dataflow.go - obligations that are not first-order facts about one function (reported with back end "dataflow").
+// dataflow.go - obligations that are not first-order facts about one function: they are decided by small passes over
+// the same go/ssa program and call graph (silence, log-only regions, stray reads, global-state inventory, allocation
+// inventory). They are named like every other obligation and reported with back end "dataflow" - never as SMT proofs.
 package main
+
+import (
+	"fmt"
+	"go/ast"
+	"os"
+	"go/token"
+	"go/types"
+	"sort"
+	"strings"
+
+	"golang.org/x/tools/go/ssa"
+)
 
 type DFResult struct {
 	Name   string
@@ -8,6 +22,1037 @@ type DFResult struct {
 	At     string
 }
 
+func (w *World) posOf(p token.Pos) string {
+	if !p.IsValid() {
+		return ""
+	}
+	ps := w.fset.Position(p)
+	return fmt.Sprintf("%s:%d", shortFile(ps.Filename), ps.Line)
+}
+
+// dfSet: the module functions reachable from the property's roots (whole call graph, not restricted by Scope).
+func (w *World) dfSet(cfg *PropCfg) []*ssa.Function {
+	roots := cfg.DFRoots
+	if len(roots) == 0 {
+		roots = decodeRoots
+	}
+	var out []*ssa.Function
+	for _, fn := range w.reachable(roots) {
+		if hasGenFile(w, fn) {
+			continue
+		}
+		out = append(out, fn)
+	}
+	return out
+}
+
 func (w *World) runPass(pass string, cfg *PropCfg, inSet interface{}) []DFResult {
-	return nil
+	fns := w.dfSet(cfg)
+	switch pass {
+	case "silence":
+		return w.passSilence(fns)
+	case "log-regions":
+		return w.passLogRegions(fns)
+	case "stray-read":
+		return w.passStrayRead(fns)
+	case "globals":
+		return w.passGlobals(fns)
+	case "alloc":
+		return w.passAlloc(fns)
+	case "pool-discipline":
+		return w.passPools(fns)
+	}
+	return []DFResult{{Name: "dataflow#unknown-pass:" + pass, OK: false, Detail: "pass not implemented"}}
+}
+
+func calleeOf(com *ssa.CallCommon) (pkg, name string) {
+	if b, ok := com.Value.(*ssa.Builtin); ok {
+		return "builtin", b.Name()
+	}
+	if com.IsInvoke() {
+		t := com.Value.Type()
+		if n, ok := t.(*types.Named); ok && n.Obj().Pkg() != nil {
+			return n.Obj().Pkg().Path(), n.Obj().Name() + "." + com.Method.Name()
+		}
+		return "", com.Method.Name()
+	}
+	if f := com.StaticCallee(); f != nil {
+		p := pkgPathOf(f)
+		if f.Signature.Recv() != nil {
+			rt := f.Signature.Recv().Type()
+			if pt, ok := rt.(*types.Pointer); ok {
+				rt = pt.Elem()
+			}
+			if n, ok := rt.(*types.Named); ok {
+				return p, n.Obj().Name() + "." + f.Name()
+			}
+		}
+		return p, f.Name()
+	}
+	return "", ""
+}
+
+func eachCall(fn *ssa.Function, f func(ins ssa.Instruction, com *ssa.CallCommon)) {
+	for _, b := range fn.Blocks {
+		for _, ins := range b.Instrs {
+			switch x := ins.(type) {
+			case *ssa.Call:
+				f(ins, &x.Call)
+			case *ssa.Defer:
+				f(ins, &x.Call)
+			case *ssa.Go:
+				f(ins, &x.Call)
+			}
+		}
+	}
+}
+
+// ---------- C15 (3): silence ----------
+// With the default configuration (every package Logger is built with .Level(zerolog.PanicLevel)) zerolog drops every
+// event below Panic (assumed dependency contract). The pass therefore requires, per reachable function: no print-family
+// call, no use of os.Stdout/os.Stderr, no logger event that bypasses or reaches the default level (Panic, Fatal, Log,
+// NoLevel, Print*, Write), and no zerolog.Logger handed out as an io.Writer; plus one obligation per package Logger
+// that its initialiser pins the level to PanicLevel.
+func (w *World) passSilence(fns []*ssa.Function) []DFResult {
+	var out []DFResult
+	forbiddenLogger := map[string]bool{"Logger.Panic": true, "Logger.Fatal": true, "Logger.Log": true, "Logger.Print": true, "Logger.Printf": true, "Logger.Println": true, "Logger.Write": true}
+	for _, fn := range fns {
+		var bad, notes []string
+		eachCall(fn, func(ins ssa.Instruction, com *ssa.CallCommon) {
+			pkg, name := calleeOf(com)
+			switch {
+			case pkg == "builtin" && (name == "print" || name == "println"):
+				bad = append(bad, name+" builtin at "+w.posOf(ins.Pos()))
+			case pkg == "fmt" && (strings.HasPrefix(name, "Print") || strings.HasPrefix(name, "Fprint")):
+				if g := w.debugSwitchGuard(ins); g != "" {
+					notes = append(notes, "fmt."+name+" at "+w.posOf(ins.Pos())+" is guarded by the package switch "+g+" (false by default, never assigned inside the library)")
+				} else {
+					bad = append(bad, "fmt."+name+" at "+w.posOf(ins.Pos()))
+				}
+			case pkg == "log" && !strings.HasPrefix(name, "New"):
+				bad = append(bad, "log."+name+" at "+w.posOf(ins.Pos()))
+			case pkg == "github.com/rs/zerolog" && forbiddenLogger[name]:
+				bad = append(bad, "zerolog "+name+" (not filtered by the default level) at "+w.posOf(ins.Pos()))
+			case pkg == "github.com/rs/zerolog" && name == "Logger.WithLevel":
+				if len(com.Args) > 1 {
+					if k, ok := com.Args[1].(*ssa.Const); !ok || k.Int64() > 4 || k.Int64() < -1 {
+						bad = append(bad, "zerolog WithLevel with a level that is not one of trace..error at "+w.posOf(ins.Pos()))
+					}
+				}
+			}
+		})
+		for _, b := range fn.Blocks {
+			for _, ins := range b.Instrs {
+				for _, op := range ins.Operands(nil) {
+					if g, ok := (*op).(*ssa.Global); ok && g.Pkg != nil && g.Pkg.Pkg.Path() == "os" && (g.Name() == "Stdout" || g.Name() == "Stderr") {
+						if fn.Synthetic == "" {
+							bad = append(bad, "os."+g.Name()+" used at "+w.posOf(ins.Pos()))
+						}
+					}
+				}
+				if mi, ok := ins.(*ssa.MakeInterface); ok {
+					if n, ok := mi.X.Type().(*types.Named); ok && n.Obj().Pkg() != nil && n.Obj().Pkg().Path() == "github.com/rs/zerolog" && n.Obj().Name() == "Logger" {
+						bad = append(bad, "zerolog.Logger converted to an interface (io.Writer use bypasses the level filter) at "+w.posOf(ins.Pos()))
+					}
+				}
+			}
+		}
+		out = append(out, DFResult{Name: fnName(fn) + "#silent", OK: len(bad) == 0, Detail: strings.Join(append(bad, notes...), "; "), At: w.posOf(fn.Pos())})
+	}
+	// package loggers: initialiser must end in .Level(zerolog.PanicLevel) (possibly followed by With()...Logger())
+	for _, p := range w.pkgs {
+		sp := w.prog.Package(p.Types)
+		if sp == nil {
+			continue
+		}
+		for nm, m := range sp.Members {
+			g, ok := m.(*ssa.Global)
+			if !ok {
+				continue
+			}
+			n, ok := g.Type().(*types.Pointer).Elem().(*types.Named)
+			if !ok || n.Obj().Pkg() == nil || n.Obj().Pkg().Path() != "github.com/rs/zerolog" || n.Obj().Name() != "Logger" {
+				continue
+			}
+			okLevel := false
+			if init := sp.Func("init"); init != nil {
+				eachCall(init, func(ins ssa.Instruction, com *ssa.CallCommon) {
+					pkg, name := calleeOf(com)
+					if pkg == "github.com/rs/zerolog" && name == "Logger.Level" && len(com.Args) > 1 {
+						if k, ok := com.Args[1].(*ssa.Const); ok && k.Int64() == 5 { // zerolog.PanicLevel
+							okLevel = true
+						}
+					}
+				})
+			}
+			out = append(out, DFResult{Name: relPkg(p.PkgPath) + "." + nm + "#default-level-panic", OK: okLevel, Detail: "package logger must be initialised with .Level(zerolog.PanicLevel)", At: w.posOf(g.Pos())})
+		}
+	}
+	sort.Slice(out, func(i, j int) bool { return out[i].Name < out[j].Name })
+	return out
+}
+
+// ---------- C15 (1): log-only regions ----------
+
+// isLogLevelFn: a module function `logLevel*` (free function or method) returning bool.
+func isLogLevelFn(f *ssa.Function) bool {
+	if f == nil || !inModule(f) || !strings.HasPrefix(f.Name(), "logLevel") {
+		return false
+	}
+	r := f.Signature.Results()
+	if r.Len() != 1 {
+		return false
+	}
+	b, ok := r.At(0).Type().Underlying().(*types.Basic)
+	return ok && b.Kind() == types.Bool
+}
+
+// logLevelValue: v is (derived from) a log-level predicate: a call of logLevel*, a GetLevel() comparison, or a load of
+// a local that is only ever assigned such values.
+func logLevelValue(v ssa.Value, depth int) bool {
+	if depth > 4 {
+		return false
+	}
+	switch x := v.(type) {
+	case *ssa.Call:
+		if isLogLevelFn(x.Call.StaticCallee()) {
+			return true
+		}
+		_, name := calleeOf(&x.Call)
+		return name == "Logger.GetLevel"
+	case *ssa.BinOp:
+		return logLevelValue(x.X, depth+1) || logLevelValue(x.Y, depth+1)
+	case *ssa.UnOp:
+		if x.Op == token.NOT {
+			return logLevelValue(x.X, depth+1)
+		}
+		if x.Op == token.MUL {
+			if a, ok := x.X.(*ssa.Alloc); ok && !a.Heap {
+				n := 0
+				for _, r := range *a.Referrers() {
+					if st, ok := r.(*ssa.Store); ok && st.Addr == a {
+						n++
+						if !logLevelValue(st.Val, depth+1) {
+							return false
+						}
+					}
+				}
+				return n > 0
+			}
+		}
+	}
+	return false
+}
+
+// logPureCall: a call that only produces log output (zerolog/fmt/errors formatting, module log helpers and marshalers).
+func (w *World) logPureCall(com *ssa.CallCommon, depth int) bool {
+	pkg, name := calleeOf(com)
+	switch {
+	case pkg == "builtin" && (name == "copy" || name == "append"):
+		return localMemory(com.Args[0], 0)
+	case pkg == "builtin":
+		return name == "len" || name == "cap" || name == "ssa:wrapnilchk" || name == "ssa:deferstack" || name == "min" || name == "max"
+	case pkg == "github.com/rs/zerolog" || pkg == "github.com/rs/zerolog/log" || pkg == "fmt" && strings.HasPrefix(name, "Sprint") || pkg == "errors" || pkg == "github.com/pkg/errors" || pkg == "runtime" || pkg == "strconv" || pkg == "strings" || pkg == "unicode/utf8" || pkg == "math":
+		return true
+	case pkg == "encoding/binary" && (strings.Contains(name, ".Uint") || strings.Contains(name, ".String")):
+		return true
+	case pkg == "encoding/hex" && (name == "Encode" || name == "EncodeToString" || name == "EncodedLen"):
+		return name != "Encode" || localMemory(com.Args[0], 0)
+	}
+	if b, ok := com.Value.(*ssa.Builtin); ok && (b.Name() == "copy" || b.Name() == "append") {
+		return localMemory(com.Args[0], 0)
+	}
+	if com.IsInvoke() {
+		// error.Error(), fmt.Stringer.String(), zerolog marshaler interfaces
+		m := com.Method.Name()
+		return m == "Error" || m == "String" || m == "MarshalZerologObject" || m == "MarshalZerologArray"
+	}
+	f := com.StaticCallee()
+	if f == nil || !inModule(f) || depth > 12 {
+		return false
+	}
+	return w.logPureFn(f, depth+1)
+}
+
+var logPureCache = map[*ssa.Function]int{}
+
+// logPureFn: the function writes nothing but its own locals and only makes log-pure calls (String/Marshal/log helpers).
+func (w *World) logPureFn(f *ssa.Function, depth int) bool {
+	if v, ok := logPureCache[f]; ok {
+		return v == 1
+	}
+	logPureCache[f] = 1 // optimistic for recursion
+	ok := true
+	for _, b := range f.Blocks {
+		for _, ins := range b.Instrs {
+			switch x := ins.(type) {
+			case *ssa.Store:
+				if rootAlloc(x.Addr) == nil {
+					if a, isA := x.Addr.(*ssa.Alloc); !(isA && a.Heap) && !isVarargsStore(x) {
+						ok = false
+					}
+				}
+			case *ssa.MapUpdate, *ssa.Go, *ssa.Send, *ssa.Panic:
+				ok = false
+			case *ssa.Call:
+				if !w.logPureCall(&x.Call, depth) {
+					ok = false
+				}
+			case *ssa.Defer:
+				ok = false
+			}
+		}
+	}
+	if !ok {
+		logPureCache[f] = 0
+		if os.Getenv("VCGO_DEBUG") != "" {
+			for _, b := range f.Blocks {
+				for _, ins := range b.Instrs {
+					switch x := ins.(type) {
+					case *ssa.Store:
+						if rootAlloc(x.Addr) == nil && !isVarargsStore(x) {
+							fmt.Fprintf(os.Stderr, "DEBUG not log-pure %s: store %s at %s\n", fnName(f), x, w.posOf(x.Pos()))
+						}
+					case *ssa.Call:
+						if !w.logPureCall(&x.Call, depth) {
+							fmt.Fprintf(os.Stderr, "DEBUG not log-pure %s: call %s at %s\n", fnName(f), x, w.posOf(x.Pos()))
+						}
+					case *ssa.MapUpdate, *ssa.Go, *ssa.Send, *ssa.Panic, *ssa.Defer:
+						fmt.Fprintf(os.Stderr, "DEBUG not log-pure %s: %s\n", fnName(f), ins)
+					}
+				}
+			}
+		}
+	}
+	return ok
+}
+
+// localMemory: the address points into memory allocated by this very function (make, new, address-taken local).
+func localMemory(v ssa.Value, depth int) bool {
+	if depth > 8 {
+		return false
+	}
+	switch x := v.(type) {
+	case *ssa.Alloc:
+		return true
+	case *ssa.MakeSlice:
+		return true
+	case *ssa.IndexAddr:
+		return localMemory(x.X, depth+1)
+	case *ssa.FieldAddr:
+		return localMemory(x.X, depth+1)
+	case *ssa.Slice:
+		return localMemory(x.X, depth+1)
+	case *ssa.UnOp:
+		if x.Op == token.MUL {
+			// a local variable holding a slice/pointer: every value stored into it must be local memory
+			if a, ok := x.X.(*ssa.Alloc); ok && !a.Heap {
+				n := 0
+				for _, r := range *a.Referrers() {
+					if st, ok := r.(*ssa.Store); ok && st.Addr == a {
+						n++
+						if !localMemory(st.Val, depth+1) {
+							return false
+						}
+					}
+				}
+				return n > 0
+			}
+		}
+	case *ssa.Call:
+		// append/hex-append style helpers returning a grown copy of local memory
+		if b, ok := x.Call.Value.(*ssa.Builtin); ok && b.Name() == "append" {
+			return localMemory(x.Call.Args[0], depth+1)
+		}
+		pkg, _ := calleeOf(&x.Call)
+		if pkg == "strconv" {
+			return len(x.Call.Args) > 0 && localMemory(x.Call.Args[0], depth+1)
+		}
+	case *ssa.Const:
+		return x.IsNil()
+	}
+	return false
+}
+
+func isVarargsStore(st *ssa.Store) bool {
+	if localMemory(st.Addr, 0) {
+		return true
+	}
+	if ia, ok := st.Addr.(*ssa.IndexAddr); ok {
+		if a, ok := ia.X.(*ssa.Alloc); ok && a.Comment == "varargs" {
+			return true
+		}
+	}
+	return false
+}
+
+func (w *World) passLogRegions(fns []*ssa.Function) []DFResult {
+	var out []DFResult
+	for _, fn := range fns {
+		if isLogLevelFn(fn) || strings.HasPrefix(fn.Name(), "log") {
+			continue // the predicates and log helpers themselves
+		}
+		n := 0
+		for _, b := range fn.Blocks {
+			if len(b.Instrs) == 0 {
+				continue
+			}
+			iff, ok := b.Instrs[len(b.Instrs)-1].(*ssa.If)
+			if !ok || !logLevelValue(iff.Cond, 0) {
+				continue
+			}
+			name := fmt.Sprintf("%s#log-only-region@%d", fnName(fn), n)
+			n++
+			// one successor starts the log region, the other one is where it must rejoin
+			var problems []string
+			okAny := false
+			for k := 0; k < 2; k++ {
+				start, join := b.Succs[k], b.Succs[1-k]
+				probs := w.logRegion(fn, start, join)
+				if len(probs) == 0 {
+					okAny = true
+					break
+				}
+				if k == 0 {
+					problems = probs
+				}
+			}
+			out = append(out, DFResult{Name: name, OK: okAny, Detail: strings.Join(problems, "; "), At: w.posOf(iff.Cond.Pos())})
+		}
+	}
+	sort.Slice(out, func(i, j int) bool { return out[i].Name < out[j].Name })
+	return out
+}
+
+// logRegion checks that everything reachable from start before reaching join only logs, and that the region has no
+// other exit (return, break/continue/goto to another block).
+func (w *World) logRegion(fn *ssa.Function, start, join *ssa.BasicBlock) []string {
+	var probs []string
+	if start == join {
+		return nil
+	}
+	// phase 1: the region = blocks reachable from start without passing through join
+	seen := map[*ssa.BasicBlock]bool{join: true}
+	work := []*ssa.BasicBlock{start}
+	region := map[*ssa.BasicBlock]bool{}
+	var order []*ssa.BasicBlock
+	for len(work) > 0 {
+		b := work[len(work)-1]
+		work = work[:len(work)-1]
+		if seen[b] {
+			continue
+		}
+		seen[b] = true
+		region[b] = true
+		order = append(order, b)
+		if len(region) > 16 {
+			return []string{"region too large to be a log statement"}
+		}
+		for _, s := range b.Succs {
+			if s == join {
+				continue
+			}
+			if !start.Dominates(s) {
+				last := b.Instrs[len(b.Instrs)-1]
+				probs = append(probs, "control leaves the log-level branch without rejoining (break/continue/goto) at "+w.posOf(last.Pos())+" in "+w.posOf(start.Instrs[0].Pos()))
+				continue
+			}
+			work = append(work, s)
+		}
+	}
+	// phase 2: the instructions of the region only log
+	for _, b := range order {
+		for _, ins := range b.Instrs {
+			switch x := ins.(type) {
+			case *ssa.Return:
+				probs = append(probs, "return inside a block guarded by a log-level test at "+w.posOf(x.Pos()))
+			case *ssa.Panic:
+				probs = append(probs, "panic inside a log-level branch at "+w.posOf(x.Pos()))
+			case *ssa.Store:
+				if a := rootAlloc(x.Addr); a != nil {
+					// a local written in the region must not be read outside it
+					for _, r := range *a.Referrers() {
+						ri, ok := r.(ssa.Instruction)
+						if !ok || ri.Block() == nil || region[ri.Block()] {
+							continue
+						}
+						switch r.(type) {
+						case *ssa.Store, *ssa.DebugRef:
+						default:
+							probs = append(probs, "local "+a.Comment+" assigned under a log-level test and used outside at "+w.posOf(x.Pos()))
+						}
+					}
+				} else if !isVarargsStore(x) {
+					probs = append(probs, "store to non-local state under a log-level test at "+w.posOf(x.Pos()))
+				}
+			case *ssa.MapUpdate, *ssa.Go, *ssa.Send, *ssa.Defer:
+				probs = append(probs, "side effect under a log-level test at "+w.posOf(ins.Pos()))
+			case *ssa.Call:
+				if !w.logPureCall(&x.Call, 0) {
+					_, nm := calleeOf(&x.Call)
+					probs = append(probs, "call of "+nm+" (not a pure logging call) under a log-level test at "+w.posOf(x.Pos()))
+				}
+			}
+		}
+	}
+	return probs
+}
+
+// ---------- C08 (3): stray reads ----------
+// Every call of Read on a reader (io.Reader & co, bufio.Reader) in the function set is listed. Chunk-independence is
+// argued through the read primitives only, so a Read call anywhere else is a violation.
+var readPrimitives = map[string]string{
+	"exif2.(*ifdReader).discard":             "skip loop over Read with a proved termination measure; counts what every Read returns (short-read safe)",
+	"isobmff.(*box).Read":                    "length-limited pass-through handed to callbacks",
+	"preview.(*previewReader).RenderPreview": "read loop that accumulates what every Read returns until the requested size",
+}
+
+func (w *World) passStrayRead(fns []*ssa.Function) []DFResult {
+	var out []DFResult
+	for _, fn := range fns {
+		var sites []string
+		eachCall(fn, func(ins ssa.Instruction, com *ssa.CallCommon) {
+			pkg, name := calleeOf(com)
+			isRead := false
+			if com.IsInvoke() && com.Method.Name() == "Read" {
+				isRead = true
+			}
+			if pkg == "bufio" && name == "Reader.Read" {
+				isRead = true
+			}
+			if isRead {
+				sites = append(sites, w.posOf(ins.Pos()))
+			}
+		})
+		if len(sites) == 0 {
+			continue
+		}
+		why, ok := readPrimitives[fnName(fn)]
+		d := "direct Read call(s) at " + strings.Join(sites, ", ")
+		if ok {
+			d += " - listed read primitive: " + why
+		} else {
+			d += " - not a listed read primitive: results may depend on how the reader chunks the stream"
+		}
+		out = append(out, DFResult{Name: fnName(fn) + "#stray-read", OK: ok, Detail: d, At: w.posOf(fn.Pos())})
+	}
+	sort.Slice(out, func(i, j int) bool { return out[i].Name < out[j].Name })
+	return out
+}
+
+// ---------- C04 / C05: package-level mutable state ----------
+// Inventory of every module global that is written (or whose address escapes) outside package initialisation in the
+// function set. Allowed: sync.Pool objects (exclusive ownership between Get and Put, assumed dependency contract) and
+// state guarded by a package mutex (checked by the lock pass below). Anything else is cross-call state.
+func (w *World) passGlobals(fns []*ssa.Function) []DFResult {
+	var out []DFResult
+	type use struct{ writes, reads []string }
+	uses := map[*ssa.Global]*use{}
+	for _, fn := range fns {
+		for _, b := range fn.Blocks {
+			for _, ins := range b.Instrs {
+				for _, op := range ins.Operands(nil) {
+					g, ok := (*op).(*ssa.Global)
+					if !ok || g.Pkg == nil || !strings.HasPrefix(g.Pkg.Pkg.Path(), modulePath) {
+						continue
+					}
+					u := uses[g]
+					if u == nil {
+						u = &use{}
+						uses[g] = u
+					}
+					where := fnName(fn) + " " + w.posOf(ins.Pos())
+					switch x := ins.(type) {
+					case *ssa.Store:
+						if x.Addr == g {
+							u.writes = append(u.writes, where)
+							continue
+						}
+					case *ssa.MapUpdate:
+						u.writes = append(u.writes, where)
+						continue
+					}
+					u.reads = append(u.reads, where)
+				}
+			}
+		}
+	}
+	// map updates go through a loaded map value
+	for _, fn := range fns {
+		for _, b := range fn.Blocks {
+			for _, ins := range b.Instrs {
+				mu, ok := ins.(*ssa.MapUpdate)
+				if !ok {
+					continue
+				}
+				if ld, ok := mu.Map.(*ssa.UnOp); ok {
+					if g, ok := ld.X.(*ssa.Global); ok {
+						if u := uses[g]; u != nil {
+							u.writes = append(u.writes, fnName(fn)+" "+w.posOf(ins.Pos()))
+						}
+					}
+				}
+			}
+		}
+	}
+	var gs []*ssa.Global
+	for g := range uses {
+		gs = append(gs, g)
+	}
+	sort.Slice(gs, func(i, j int) bool { return gs[i].String() < gs[j].String() })
+	for _, g := range gs {
+		u := uses[g]
+		gi := w.globals[g.String()]
+		t := g.Type().(*types.Pointer).Elem()
+		ts := types.TypeString(t, func(p *types.Package) string { return p.Name() })
+		name := relPkg(g.Pkg.Pkg.Path()) + "." + g.Name() + "#global-state"
+		switch {
+		case ts == "sync.Pool":
+			out = append(out, DFResult{Name: name, OK: true, Detail: "sync.Pool (objects exclusively owned between Get and Put; contents unconstrained at Get)"})
+		case ts == "sync.RWMutex" || ts == "sync.Mutex":
+			out = append(out, DFResult{Name: name, OK: true, Detail: "mutex"})
+		case len(u.writes) == 0 && (gi == nil || !gi.stored):
+			// read-only after initialisation
+			out = append(out, DFResult{Name: name, OK: true, Detail: fmt.Sprintf("read-only after initialisation (%d read sites)", len(u.reads))})
+		case len(u.writes) == 0:
+			// assigned or address-taken somewhere in the module, but not on any path of this call graph
+			ws := w.writersOf(g)
+			out = append(out, DFResult{Name: name, OK: true, Detail: fmt.Sprintf("not written on any path from the entry points (%d read sites); assigned only by configuration code outside the call graph: %s", len(u.reads), strings.Join(ws, ", "))})
+		default:
+			ok, why := w.guardedByMutex(g, fns)
+			d := fmt.Sprintf("written after initialisation at %s", strings.Join(u.writes, ", "))
+			if ok {
+				d += " - every access is between Lock/RLock and Unlock/RUnlock of " + why
+			} else {
+				d += " - " + why
+			}
+			out = append(out, DFResult{Name: name, OK: ok, Detail: d, At: w.posOf(g.Pos())})
+		}
+	}
+	return out
+}
+
+// guardedByMutex: every access to global g in the function set happens, within its basic block sequence, after a
+// Lock/RLock and before the matching Unlock/RUnlock of a package-level mutex; writes only under Lock.
+func (w *World) guardedByMutex(g *ssa.Global, fns []*ssa.Function) (bool, string) {
+	mutex := ""
+	for _, fn := range fns {
+		touches := false
+		for _, b := range fn.Blocks {
+			for _, ins := range b.Instrs {
+				for _, op := range ins.Operands(nil) {
+					if (*op) == ssa.Value(g) {
+						touches = true
+					}
+				}
+			}
+		}
+		if !touches {
+			continue
+		}
+		// simple forward dataflow of the lock state over the CFG: 0 free, 1 read-locked, 2 write-locked, -1 conflict
+		in := map[*ssa.BasicBlock]int{fn.Blocks[0]: 0}
+		work := []*ssa.BasicBlock{fn.Blocks[0]}
+		visited := map[*ssa.BasicBlock]bool{}
+		for len(work) > 0 {
+			b := work[0]
+			work = work[1:]
+			st := in[b]
+			visited[b] = true
+			for _, ins := range b.Instrs {
+				if c, ok := ins.(*ssa.Call); ok {
+					pkg, name := calleeOf(&c.Call)
+					if pkg == "sync" && (strings.HasPrefix(name, "RWMutex.") || strings.HasPrefix(name, "Mutex.")) && len(c.Call.Args) > 0 {
+						if mg, ok := c.Call.Args[0].(*ssa.Global); ok {
+							mutex = mg.Name()
+							switch strings.SplitN(name, ".", 2)[1] {
+							case "Lock":
+								if st != 0 {
+									return false, "Lock while the mutex is already held in " + fnName(fn)
+								}
+								st = 2
+							case "RLock":
+								if st != 0 {
+									return false, "RLock while the mutex is already held in " + fnName(fn)
+								}
+								st = 1
+							case "Unlock":
+								if st != 2 {
+									return false, "Unlock without Lock in " + fnName(fn)
+								}
+								st = 0
+							case "RUnlock":
+								if st != 1 {
+									return false, "RUnlock without RLock in " + fnName(fn)
+								}
+								st = 0
+							}
+							continue
+						}
+					}
+				}
+				// accesses: loads of the global (map value) count at the instruction that uses the loaded map
+				acc, write := false, false
+				switch x := ins.(type) {
+				case *ssa.Lookup:
+					if ld, ok := x.X.(*ssa.UnOp); ok && ld.X == ssa.Value(g) {
+						acc = true
+					}
+				case *ssa.MapUpdate:
+					if ld, ok := x.Map.(*ssa.UnOp); ok && ld.X == ssa.Value(g) {
+						acc, write = true, true
+					}
+				case *ssa.Store:
+					if x.Addr == ssa.Value(g) {
+						acc, write = true, true
+					}
+				case *ssa.Range:
+					if ld, ok := x.X.(*ssa.UnOp); ok && ld.X == ssa.Value(g) {
+						acc = true
+					}
+				}
+				if acc && st == 0 {
+					return false, "access without the lock in " + fnName(fn) + " at " + w.posOf(ins.Pos())
+				}
+				if write && st != 2 {
+					return false, "write under a read lock in " + fnName(fn) + " at " + w.posOf(ins.Pos())
+				}
+				if _, ok := ins.(*ssa.Return); ok && st != 0 {
+					return false, "return while holding the lock in " + fnName(fn)
+				}
+			}
+			for _, s := range b.Succs {
+				if prev, ok := in[s]; ok {
+					if prev != st {
+						return false, "lock state differs between paths in " + fnName(fn)
+					}
+					continue
+				}
+				in[s] = st
+				if !visited[s] {
+					work = append(work, s)
+				}
+			}
+		}
+	}
+	if mutex == "" {
+		return false, "no package mutex guards it"
+	}
+	return true, mutex
+}
+
+// ---------- C14: allocation-site inventory ----------
+// Every allocation whose size is not a compile-time constant is listed with a syntactic classification of its size:
+// constant, length of an existing value (a copy of bytes already held), or a computed value (which needs a contract).
+func (w *World) passAlloc(fns []*ssa.Function) []DFResult {
+	var out []DFResult
+	for _, fn := range fns {
+		n := 0
+		for _, b := range fn.Blocks {
+			for _, ins := range b.Instrs {
+				var what, class string
+				ok := true
+				switch x := ins.(type) {
+				case *ssa.MakeSlice:
+					what = "make(" + types.TypeString(x.Type(), func(p *types.Package) string { return p.Name() }) + ")"
+					class, ok = sizeClass(x.Cap, 0)
+				case *ssa.MakeMap:
+					if x.Reserve == nil {
+						continue
+					}
+					what = "make(map) with size hint"
+					class, ok = sizeClass(x.Reserve, 0)
+				case *ssa.Alloc:
+					if !x.Heap || x.Comment == "varargs" {
+						continue
+					}
+					what = "new(" + types.TypeString(x.Type().(*types.Pointer).Elem(), func(p *types.Package) string { return p.Name() }) + ")"
+					class, ok = "constant", true
+				case *ssa.Convert:
+					// string <-> []byte conversions copy an existing value
+					_, toStr := x.Type().Underlying().(*types.Basic)
+					_, fromSl := x.X.Type().Underlying().(*types.Slice)
+					_, toSl := x.Type().Underlying().(*types.Slice)
+					if !(toStr && fromSl) && !toSl {
+						continue
+					}
+					what = "conversion " + types.TypeString(x.X.Type(), nil) + " -> " + types.TypeString(x.Type(), nil)
+					class, ok = "the length of a value already in memory (copy)", true
+				case *ssa.Call:
+					pkg, name := calleeOf(&x.Call)
+					if pkg == "builtin" && name == "append" {
+						what = "append"
+						if len(x.Call.Args) > 1 {
+							if sl, isSl := x.Call.Args[1].(*ssa.Slice); isSl {
+								if al, isAl := sl.X.(*ssa.Alloc); isAl && al.Comment == "varargs" {
+									class, ok = "constant", true // a fixed number of elements
+									break
+								}
+							}
+							class, ok = "the length of a value already in memory (appended slice)", true
+						}
+						if li := loopOf(fn, b); li {
+							class += "; inside a loop (growth per iteration bounded, number of iterations not decided here)"
+						}
+					} else if pkg == "bufio" && (name == "NewReaderSize" || name == "NewWriterSize") && len(x.Call.Args) > 1 {
+						what = "bufio." + name
+						class, ok = sizeClass(x.Call.Args[1], 0)
+					} else if pkg == "bytes" && name == "Buffer.Grow" || pkg == "strings" && name == "Builder.Grow" {
+						what = pkg + "." + name
+						class, ok = sizeClass(x.Call.Args[len(x.Call.Args)-1], 0)
+					} else {
+						continue
+					}
+				default:
+					continue
+				}
+				out = append(out, DFResult{Name: fmt.Sprintf("%s#alloc-bound@%d", fnName(fn), n), OK: ok, Detail: what + ": size is " + class, At: w.posOf(ins.Pos())})
+				n++
+			}
+		}
+	}
+	sort.Slice(out, func(i, j int) bool { return out[i].Name < out[j].Name })
+	return out
+}
+
+// sizeClass classifies the size operand of an allocation.
+func sizeClass(v ssa.Value, depth int) (string, bool) {
+	if depth > 6 {
+		return "a computed value", false
+	}
+	if _, isK := v.(*ssa.Const); !isK {
+		if w, _, ok := bvw(v.Type()); ok && w <= 16 {
+			return fmt.Sprintf("a %d-bit value (at most %d elements)", w, (1<<uint(w))-1), true
+		}
+	}
+	switch x := v.(type) {
+	case *ssa.Const:
+		return "constant", true
+	case *ssa.Call:
+		if b, ok := x.Call.Value.(*ssa.Builtin); ok && (b.Name() == "len" || b.Name() == "cap") {
+			return "the length of a value already in memory (len/cap)", true
+		}
+		if b, ok := x.Call.Value.(*ssa.Builtin); ok && (b.Name() == "min") {
+			for _, a := range x.Call.Args {
+				if c, ok := sizeClass(a, depth+1); ok {
+					return "min(...) with " + c, true
+				}
+			}
+		}
+	case *ssa.Convert:
+		return sizeClass(x.X, depth+1)
+	case *ssa.ChangeType:
+		return sizeClass(x.X, depth+1)
+	case *ssa.BinOp:
+		a, oka := sizeClass(x.X, depth+1)
+		b, okb := sizeClass(x.Y, depth+1)
+		if oka && okb && (x.Op == token.ADD || x.Op == token.SUB || x.Op == token.MUL && (a == "constant" || b == "constant") || x.Op == token.QUO || x.Op == token.SHR) {
+			if a == "constant" {
+				return b + " scaled/offset by a constant", true
+			}
+			return a + " scaled/offset by a constant", true
+		}
+	case *ssa.UnOp:
+		if x.Op == token.MUL {
+			if al, ok := x.X.(*ssa.Alloc); ok && !al.Heap {
+				// a local: every value stored into it must be bounded
+				cls := ""
+				for _, r := range *al.Referrers() {
+					if st, ok := r.(*ssa.Store); ok && st.Addr == al {
+						c, ok := sizeClass(st.Val, depth+1)
+						if !ok {
+							return "local " + al.Comment + " assigned " + c, false
+						}
+						cls = c
+					}
+				}
+				if cls != "" {
+					return cls, true
+				}
+			}
+			if fa, ok := x.X.(*ssa.FieldAddr); ok {
+				st := fa.X.Type().Underlying().(*types.Pointer).Elem().Underlying().(*types.Struct)
+				return "the field " + st.Field(fa.Field).Name() + " (a value that may come from the file) without a proved bound", false
+			}
+		}
+	case *ssa.Parameter:
+		return "parameter " + x.Name() + " (bounded only by its callers)", false
+	case *ssa.Field:
+		return "a struct field (a value that may come from the file) without a proved bound", false
+	}
+	return "a computed value without a proved bound", false
+}
+
+// debugSwitchGuard: the instruction only executes when a module-level bool variable is true, and that variable is
+// initialised to false (or not at all) and never assigned anywhere in the library. Returns the variable's name.
+func (w *World) debugSwitchGuard(ins ssa.Instruction) string {
+	b := ins.Block()
+	for d := b.Idom(); d != nil; d = d.Idom() {
+		if len(d.Instrs) == 0 {
+			continue
+		}
+		iff, ok := d.Instrs[len(d.Instrs)-1].(*ssa.If)
+		if !ok {
+			continue
+		}
+		ld, ok := iff.Cond.(*ssa.UnOp)
+		if !ok || ld.Op != token.MUL {
+			continue
+		}
+		g, ok := ld.X.(*ssa.Global)
+		if !ok || g.Pkg == nil || !strings.HasPrefix(g.Pkg.Pkg.Path(), modulePath) {
+			continue
+		}
+		if !d.Succs[0].Dominates(b) || d.Succs[0] == d.Succs[1] {
+			continue
+		}
+		gi := w.globals[g.String()]
+		if gi == nil || gi.stored {
+			continue
+		}
+		if gi.init != nil {
+			if id, ok := gi.init.(*ast.Ident); !ok || id.Name != "false" {
+				continue
+			}
+		}
+		return relPkg(g.Pkg.Pkg.Path()) + "." + g.Name()
+	}
+	return ""
+}
+
+// writersOf lists the module functions (outside package initialisation) that store to global g or take its address.
+func (w *World) writersOf(g *ssa.Global) []string {
+	var out []string
+	for _, fn := range w.fnList {
+		hit := false
+		for _, b := range fn.Blocks {
+			for _, ins := range b.Instrs {
+				if st, ok := ins.(*ssa.Store); ok && st.Addr == ssa.Value(g) {
+					hit = true
+				}
+			}
+		}
+		if hit {
+			out = append(out, fnName(fn))
+		}
+	}
+	if len(out) == 0 {
+		out = append(out, "(none: the value is only passed to library calls)")
+	}
+	return out
+}
+
+// ---------- C04 / C05: pool discipline ----------
+// In a function that both takes an object from a sync.Pool and returns one to the same pool, no path may execute more
+// Put calls (explicit + deferred) than Get calls: a second Put would let two later callers share one scratch object.
+func (w *World) passPools(fns []*ssa.Function) []DFResult {
+	var out []DFResult
+	for _, fn := range fns {
+		pools := map[*ssa.Global]bool{}
+		eachCall(fn, func(ins ssa.Instruction, com *ssa.CallCommon) {
+			pkg, name := calleeOf(com)
+			if pkg == "sync" && (name == "Pool.Get" || name == "Pool.Put") && len(com.Args) > 0 {
+				if g, ok := com.Args[0].(*ssa.Global); ok {
+					pools[g] = true
+				}
+			}
+		})
+		for g := range pools {
+			gets, puts, dputs := 0, 0, 0
+			eachCall(fn, func(ins ssa.Instruction, com *ssa.CallCommon) {
+				pkg, name := calleeOf(com)
+				if pkg != "sync" || len(com.Args) == 0 || com.Args[0] != ssa.Value(g) {
+					return
+				}
+				_, isDefer := ins.(*ssa.Defer)
+				switch name {
+				case "Pool.Get":
+					gets++
+				case "Pool.Put":
+					if isDefer {
+						dputs++
+					} else {
+						puts++
+					}
+				}
+			})
+			if gets == 0 {
+				continue // ownership arrived through an object (e.g. Close returns the buffer taken by the constructor)
+			}
+			// maximal number of explicit Puts on one path (the CFG is small: longest-path over the acyclic condensation)
+			maxPuts := w.maxOnPath(fn, func(ins ssa.Instruction) int {
+				if c, ok := ins.(*ssa.Call); ok {
+					pkg, name := calleeOf(&c.Call)
+					if pkg == "sync" && name == "Pool.Put" && len(c.Call.Args) > 0 && c.Call.Args[0] == ssa.Value(g) {
+						return 1
+					}
+				}
+				return 0
+			})
+			ok := maxPuts+dputs <= gets
+			out = append(out, DFResult{Name: fmt.Sprintf("%s#pool-discipline:%s", fnName(fn), g.Name()), OK: ok,
+				Detail: fmt.Sprintf("%d Get, at most %d explicit Put on a path + %d deferred Put of pool %s", gets, maxPuts, dputs, g.Name()), At: w.posOf(fn.Pos())})
+			_ = puts
+		}
+	}
+	sort.Slice(out, func(i, j int) bool { return out[i].Name < out[j].Name })
+	return out
+}
+
+// maxOnPath: maximum over entry-to-exit paths (back edges ignored) of the sum of weight(ins).
+func (w *World) maxOnPath(fn *ssa.Function, weight func(ssa.Instruction) int) int {
+	back := backEdges(fn)
+	memo := map[int]int{}
+	var rec func(b *ssa.BasicBlock) int
+	rec = func(b *ssa.BasicBlock) int {
+		if v, ok := memo[b.Index]; ok {
+			return v
+		}
+		memo[b.Index] = 0
+		own := 0
+		for _, ins := range b.Instrs {
+			own += weight(ins)
+		}
+		best := 0
+		for _, s := range b.Succs {
+			if back[[2]int{b.Index, s.Index}] {
+				continue
+			}
+			if v := rec(s); v > best {
+				best = v
+			}
+		}
+		memo[b.Index] = own + best
+		return own + best
+	}
+	if len(fn.Blocks) == 0 {
+		return 0
+	}
+	return rec(fn.Blocks[0])
+}
+
+// loopOf: block b lies on a cycle of fn's control-flow graph.
+func loopOf(fn *ssa.Function, b *ssa.BasicBlock) bool {
+	for li := range findLoopsBlocks(fn) {
+		if li == b.Index {
+			return true
+		}
+	}
+	return false
+}
+
+var loopBlocksCache = map[*ssa.Function]map[int]bool{}
+
+func findLoopsBlocks(fn *ssa.Function) map[int]bool {
+	if m, ok := loopBlocksCache[fn]; ok {
+		return m
+	}
+	m := map[int]bool{}
+	for _, li := range findLoops(fn, nil) {
+		for bi := range li.blocks {
+			m[bi] = true
+		}
+	}
+	loopBlocksCache[fn] = m
+	return m
 }
